@@ -522,7 +522,10 @@ func genC14(outDir string) error {
 	if outDir == "" {
 		outDir = "/verif/lean/YouVerif/C14"
 	}
-	return os.WriteFile(filepath.Join(outDir, "GenSchemas.lean"), []byte(sb.String()), 0o644)
+	if err := os.WriteFile(filepath.Join(outDir, "GenSchemas.lean"), []byte(sb.String()), 0o644); err != nil {
+		return err
+	}
+	return genEntryPoints(outDir)
 }
 
 func describe(e *entry) string {
